@@ -179,6 +179,10 @@ func ruleDispatchExh(r *Run) {
 		})
 	}
 	r.Check("dispatch-exh", "renderInlineContent:fallback", inline.Pos(), fallsBack, "inline kinds without a dedicated case must contribute their text through the shared extractor")
+	// (A rule "(3b) every other statically reachable inline walker needs cases for the childless
+	// text kinds" was tried after round 5 and withdrawn: renderTaskItemContent lacks them but is only
+	// reached under a condition goldmark never makes true, so on today's tree the report would be
+	// a false alarm; whether such a walker is live is not a structural fact.  See DESIGN.md §15.)
 	_ = inlineCases
 	// the extractor recurses into every non-leaf child (finite tree: child obtained from FirstChild/NextSibling)
 	rec := false
